@@ -11,7 +11,7 @@ points of small order), SEC 1 2.3.3/2.3.4 (point encodings)."""
 SIG = {
     'gcd': {'sort': 'int[nat]', 'uf': True,
             'facts': ['result >= 0', 'ite(a != 0, result >= 1, True)', 'ite(b != 0, result >= 1, True)', 'ite(b == 0, result == abs(a), True)',
-                      'ite(a == 0, result == abs(b), True)']},
+                      'ite(a == 0, result == abs(b), True)', 'ite(a != 0, result <= abs(a), True)', 'ite(b != 0, result <= abs(b), True)']},
     'inverse': {'sort': 'int[nat]', 'uf': True,
                 'facts': ['ite(m > 0, result < m, True)', 'ite(m > 0, ite(spec.keys.gcd(u, m) == 1, (u * result) % m == 1 % m, True), True)']},
     'lcm': {'sort': 'int[nat]', 'uf': True, 'facts': ['result >= 0']},
@@ -62,6 +62,19 @@ def probable_prime(n):
     pass
 
 
+# ====================================================================================================== OpenSSH private-key container (PROTOCOL.key)
+def uint32(b):
+    """RFC 4251 5 `uint32`: the first four octets of b, big endian (meaningful when len(b) >= 4)"""
+    h = b[:4]
+    return h[0] * 16777216 + h[1] * 65536 + h[2] * 256 + h[3]
+
+
+def openssh_padding_ok(pad):
+    """'padded with the bytes 1, 2, 3, ...' (PROTOCOL.key): every octet i (from 0) of the padding is (i + 1) mod 256.
+    counting_prefix(b, k) is the quantified spec form 'the first k octets of b count 1, 2, 3, ... mod 256' (contracts/key_common.py)"""
+    return counting_prefix(pad, len(pad))
+
+
 # ====================================================================================================== RSA (RFC 8017 3.1, 3.2; FIPS 186-4 5.1, B.3.1)
 def rsa_public_ok(n, e):
     """RFC 8017 3.1: n a product of odd primes (so n is odd), 3 <= e <= n - 1 with GCD(e, lambda(n)) = 1; what can be tested on (n, e)
@@ -85,7 +98,7 @@ def rsa_private_ok(n, e, d, p, q, u):
 # ====================================================================================================== DSA / ElGamal (FIPS 186-4 4.1, 4.2, B.1.1, A.2.2; HAC 8.4)
 def dsa_domain_ok(p, q, g):
     """FIPS 186-4 4.1 / A.2.2: p and q (probable) primes, q divides p - 1, 1 < g < p, g^q == 1 mod p"""
-    if not (p > 0 and q > 0 and probable_prime(p) and probable_prime(q)):
+    if not (p > 1 and q > 1 and probable_prime(p) and probable_prime(q)):
         return False
     return (p - 1) % q == 0 and 1 < g and g < p and pow(g, q, p) == 1
 
